@@ -8,12 +8,12 @@ from typing import Any, Iterator
 from jinja2 import nodes
 
 from .. import tplq
-from ..astutil import Locals, call_name, constructs_error, error_names, norm, returns_error, short, where
+from ..astutil import Locals, call_name, calls_in, constructs_error, error_names, norm, returns_error, short, where
 from ..cfg import CFG, ENTRY, own_exprs, walk_own
 from ..core import PKG, Report
 from ..jinja_interp import expr_text
 from .siblings import Path as SimPath
-from .siblings import PathSim, error_locals, path_returns_error
+from .siblings import PathSim, _Inliner, _returns_in, error_locals, path_returns_error
 
 LEVEL = ("sibling / guard rules: (1) every get_type_string implementation evaluates an Unset-mentioning constant exactly when `not "
          "no_optional and not required` (path simulation over the boolean atoms, all overrides); to_string emits a default iff the "
@@ -34,9 +34,12 @@ LEVEL = ("sibling / guard rules: (1) every get_type_string implementation evalua
          "one function that ORs their `required`, or returns under equality of the two; (9) decode direction: the Python code each kind's construct macro generates "
          "for a non-required property (per valuation of the template conditions, macro calls followed, placeholders for destination / "
          "source / unknown) is parsed and run abstractly on the path where the source is UNSET: the destination ends as the source / "
-         "UNSET, never as a fresh value.")
+         "UNSET, never as a fresh value; (11) the `required` lists of the document reach the builders whole (no in-place rewrite, no "
+         "filter over a collection made of them); (12) two declarations' `required` are combined only by the merge module and the "
+         "function that walks allOf.")
 
 TEMPLATE_DIR = "property_templates/"
+GUARD_RE = re.compile(r"isinstance\([^)]*,\s*Unset\)|\bis (not )?UNSET\b")   # generated code that asks whether a value is the sentinel
 
 
 def run(rep: Report, ctx: Any) -> str:
@@ -48,7 +51,8 @@ def run(rep: Report, ctx: Any) -> str:
                       "`= UNSET` iff not required and no default, and nothing iff required without default")
     rep.rule("R10.2", "every transform/transform_multipart/transform_multipart_body/construct_template macro: the arm emitted "
                       "for required properties never mentions Unset/UNSET; the arm for optional properties assigns UNSET only "
-                      "under an isinstance(..., Unset) test; an Unset guard is skipped only when `property.required`")
+                      "under an isinstance(..., Unset) test; for a property that is not required a test for Unset is emitted under every valuation of the "
+                      "conditions the Unset-handling pieces sit under (skipped only when `property.required`)")
     rep.rule("R10.3", "to_dict writes a key unconditionally only if the property is required, otherwise under `is not UNSET`; "
                       "from_dict pops optional keys with the UNSET default and required keys without default")
     rep.rule("R10.6", "the model class declares every mandatory attribute (required, no default) before every attribute that carries a "
@@ -120,6 +124,7 @@ def run(rep: Report, ctx: Any) -> str:
             texts_req: list[str] = []
             texts_opt: list[str] = []
             unguarded_unset = []
+            guard_frs: list[tuple[int, tplq.Frag, list[str]]] = []   # the pieces that mention the sentinel or its class for optional properties
             for i_fr, fr in enumerate(frs):
                 # what the fragment contributes to the generated code: template text as it stands; of an output expression the
                 # string constants it evaluates (a conditional expression selects one arm, a `set` variable reads as its
@@ -137,6 +142,8 @@ def run(rep: Report, ctx: Any) -> str:
                     txt = fr.text if fr.kind == "data" else "".join(tev2.consts(fr.expr, env, i_fr))
                     on_req = env[req_atom] if req_atom in names else True
                     on_opt = not env[req_atom] if req_atom in names else True
+                    if on_opt and re.search(r"\bUNSET\b|\bUnset\b", txt) and not any(x[1] is fr for x in guard_frs):
+                        guard_frs.append((i_fr, fr, names))
                     if on_req and txt not in texts_req[-1:]:
                         texts_req.append(txt)
                         if re.search(r"\bUNSET\b|\bUnset\b", txt):
@@ -148,7 +155,7 @@ def run(rep: Report, ctx: Any) -> str:
                       where=f"{PKG}/templates/{tn}:{m.lineno}", lhs=unguarded_unset[:2], rhs="no Unset handling when required")
             opt = "".join(texts_opt)
             # (an identity test with the singleton asks the same as the instance test of its class)
-            has_guard = bool(re.search(r"isinstance\([^)]*,\s*Unset\)|\bis (not )?UNSET\b", opt)) or "isinstance(" in opt and "Unset" in opt
+            has_guard = bool(GUARD_RE.search(opt)) or "isinstance(" in opt and "Unset" in opt
             if mn == "guarded_statement":
                 rep.check(has_guard, "R10.2", key + "::optional-arm", "optional arm has no isinstance(..., Unset) guard",
                           where=f"{PKG}/templates/{tn}:{m.lineno}", lhs=opt.strip()[:80], rhs="isinstance(source, Unset)")
@@ -158,21 +165,27 @@ def run(rep: Report, ctx: Any) -> str:
                           "the arm emitted for optional properties does not test isinstance(..., Unset) (a truthiness or equality "
                           "test would confuse falsy values with absence)", where=f"{PKG}/templates/{tn}:{m.lineno}",
                           lhs=opt.strip()[:100], rhs="isinstance(<source>, Unset) guard")
-            # a guard is skipped only under property.required: every If that decides between the two arms tests exactly that atom
-            for test in tests:
-                at = _atoms(test)
-                if req_atom in at and len(at) > 1:
-                    # the required arm must imply property.required
-                    for env in tplq.assignments(at):
-                        val = _eval(test, env)
-                        # polarity: which arm is "no guard"? the arm taken when property.required is True and all other atoms False
-                        base = _eval(test, {a: (a == req_atom) for a in at})
-                        if val == base and not env[req_atom]:
-                            rep.fail("R10.2", key + f"::guard-skipped({expr_text(test)[:50]})",
-                                     f"the Unset guard is skipped under `{expr_text(test)}` although the property is not required "
-                                     f"(e.g. {env})", where=f"{PKG}/templates/{tn}:{test.lineno}", lhs=expr_text(test),
-                                     rhs="skipped only when property.required")
-                            break
+            # a guard is skipped only under property.required: whatever else the template asks, for a property that is not
+            # required some piece that tests for Unset is emitted - a truth table over the conditions those pieces sit under
+            # (which other decisions a condition is mixed with - `if` vs `elif` of the generated chain, the last member of a
+            # union - is not asked)
+            if has_guard:
+                gnames = list(dict.fromkeys([req_atom] + [a for _, _, ns_ in guard_frs for a in ns_]))
+                rep.require(len(gnames) <= 14, f"Unset tests of {key} that depend on at most 14 conditions")
+                decided = [(i_, fr) for i_, fr in enumerate(frs) if fr.kind in ("data", "expr") and
+                           set(_guard_atoms(fr) + (tev2.atoms(fr.expr, i_) if fr.kind == "expr" else [])) <= set(gnames)]
+                for env in tplq.assignments(gnames):
+                    if env[req_atom]:
+                        continue
+                    gen = "".join(fr.text if fr.kind == "data" else "".join(tev2.consts(fr.expr, env, i_))
+                                  for i_, fr in decided if _guard_holds(fr, env))
+                    if not (GUARD_RE.search(gen) or "isinstance(" in gen and "Unset" in gen):
+                        holds = sorted(a for a, v in env.items() if v)
+                        rep.fail("R10.2", key + f"::guard-skipped({' and '.join(holds)[:50]})",
+                                 f"no Unset test is emitted for a property that is not required when {holds or 'nothing else'} holds "
+                                 f"(valuation {env})", where=f"{PKG}/templates/{tn}:{m.lineno}", lhs=env,
+                                 rhs="skipped only when property.required")
+                        break
     rep.floor("unset_handling_macros", n_macros, 13)
 
     # ---- R10.3 -------------------------------------------------------------------------------------------------------
@@ -306,6 +319,7 @@ def run(rep: Report, ctx: Any) -> str:
     # shared between endpoints) and every template keys the three states on property.required / property.default: changing
     # either in place changes another owner's declaration.  A new value needs a new object (evolve).
     n_stores = 0
+    doc_required_stores: list[tuple[Any, ast.AST]] = []
     for f in ix.all_functions:
         for n in ast.walk(f.node):
             attr = obj = None
@@ -320,6 +334,8 @@ def run(rep: Report, ctx: Any) -> str:
             if attr in ("required", "default") and not (obj == "self" and f.name in ("__init__", "__attrs_post_init__")):
                 # stores into the pydantic document model (schema classes) are normalisation of the input, not of a property
                 if f.cls is not None and not any(k.name == "PropertyProtocol" for k in ix.mro(f.cls)) and obj == "self":
+                    if attr == "required":
+                        doc_required_stores.append((f, n))   # the document's own `required`: R10.11
                     continue
                 # an object this function has just constructed is not shared with anybody yet
                 made = Locals(f.node).defs.get(obj or "", [])
@@ -367,6 +383,12 @@ def run(rep: Report, ctx: Any) -> str:
 
     # ---- R10.10 requiredness survives a merge ------------------------------------------------------------------------------------
     _merge_keeps_required(rep, ix)
+
+    # ---- R10.11 the document's `required` list is handed on whole ---------------------------------------------------------------
+    _required_list_whole(rep, ix, doc_required_stores)
+
+    # ---- R10.12 two requirednesses are combined by allOf only -------------------------------------------------------------------
+    _combination_is_allof_only(rep, ix)
 
     # ---- R10.9 the UNSET source passes through the decoder ------------------------------------------------------------------------
     # from_dict pops an optional key with the UNSET default (R10.3) and hands `<python_name>` to cls(...).  What lies between is the
@@ -448,29 +470,55 @@ def run(rep: Report, ctx: Any) -> str:
     rep.require(ut, "union template")
     cons = ut.macros.get("construct")
     rep.require(cons, "union construct")
-    # (in the order of emission, macros the parser is assembled from included)
-    frs = list(_frags(cons.body, ut, jx))
-    none_at = [i for i, f in enumerate(frs) if f.kind == "data" and re.search(r"\bif data is None:\s*\n\s*return (data|None)\b", f.text)]
-    none_fr = [frs[i] for i in none_at]
-    none_atoms = [a for f in none_fr[:1] for a in _guard_atoms(f) if a.startswith("'None' in ") and "type_strings" in a]
-    ok = bool(none_fr) and len(none_atoms) == 1 and _implies(none_fr[0], none_atoms[0], True)
-    # ... and whenever None is among them, whatever else is asked on the way
-    ok = ok and all(_guard_holds(none_fr[0], e) for e in tplq.assignments(_guard_atoms(none_fr[0])) if e[none_atoms[0]])
-    first_loop = next((i for i, f in enumerate(frs) if f.loops), None)
-    ok = ok and first_loop is not None and none_at[0] < first_loop
+    # The generated parser, put together per valuation of the template conditions (macro calls and call blocks followed, loops
+    # over written-out tables unrolled, `set` variables and table entries read as the text they hold): the statement
+    # `if data is None: return data` is part of it exactly when "None" is among the JSON type strings - whatever else is asked -
+    # and stands before everything the loop over the members emits.
+    ufr = list(enumerate(_frags(cons.body, ut, jx, sets=True)))
+    utev = _TplEval([fr for _, fr in ufr])
+    unames: list[str] = []
+    for i_, fr in ufr:
+        for a in _guard_atoms(fr) + (utev.atoms(fr.expr, i_) if fr.kind == "expr" else []):
+            if a not in unames:
+                unames.append(a)
+    rep.require(len(unames) <= 14, "a union parser that depends on at most 14 conditions")
+    none_atoms = [a for a in unames if a.startswith("'None' in ") and "type_strings" in a]
+    none_re = re.compile(r"\bif data is None:\s*\n\s*return (data|None)\b")
+    ok = len(none_atoms) == 1
+    n_with = 0
+    bad_env: "dict[str, bool] | None" = None
+    for env in tplq.assignments(unames) if ok else ():
+        before = after = ""
+        for i_, fr in ufr:
+            if fr.kind == "set" or not _guard_holds(fr, env):
+                continue
+            txt = _gen_text(fr, i_, env, utev, lambda *_: None)
+            if fr.loops or after:
+                after += txt
+            else:
+                before += txt
+        found = none_re.search(before)
+        n_with += bool(found)
+        if bool(found) != env[none_atoms[0]] or none_re.search(after):
+            ok, bad_env = False, env
+            break
+    ok = ok and n_with > 0
     rep.check(ok, "R10.4", "union_property.py.jinja::construct::none-short-circuit",
               "the union parser does not return None (before trying members) exactly when None is among its JSON types",
-              where=f"{PKG}/templates/{ut.name}:{cons.lineno}", lhs=[f.guards for f in none_fr][:1], rhs="guarded by 'None' in type strings, before the member loop")
+              where=f"{PKG}/templates/{ut.name}:{cons.lineno}", lhs=bad_env or none_atoms, rhs="guarded by 'None' in type strings, before the member loop")
     sch = ix.cls("Schema")
     hn = sch.methods.get("handle_nullable")
     rep.require(hn, "Schema.handle_nullable")
     # a nullable schema of each shape gets a null alternative on every path; a schema that is not nullable never does
+    # (the private helpers of the method written out in place, loops over a written-out table of fields unrolled: where the cases
+    # are told apart - one elif chain, phases in helpers, a loop over the composition keywords - is not what is asked)
+    hn_flat = _FlatInliner(ix, hn, depth=3).run()
     for field_ in ("type scalar", "type list", "oneOf", "anyOf", "allOf"):
-        paths = [p for p in _nullable_paths(hn.node, True, field_) if not isinstance(p.end, ast.Raise)]
+        paths = [p for p in _nullable_paths(hn_flat, True, field_) if not isinstance(p.end, ast.Raise)]
         rep.check(bool(paths) and all(_adds_null(p) for p in paths), "R10.4", f"Schema.handle_nullable::{field_}",
                   f"nullable is not normalised for schemas using {field_}", where(hn, hn.node),
                   lhs=[norm(p.end)[:60] if p.end is not None else "<end>" for p in paths if not _adds_null(p)][:2], rhs="a path that adds DataType.NULL")
-    paths = [p for f_ in ("type scalar", "oneOf") for p in _nullable_paths(hn.node, False, f_)]
+    paths = [p for f_ in ("type scalar", "oneOf") for p in _nullable_paths(hn_flat, False, f_)]
     rep.check(bool(paths) and not any(_adds_null(p) for p in paths), "R10.4", "Schema.handle_nullable::not-nullable",
               "a schema that is not nullable gets a null alternative", where(hn, hn.node))
     comp_fields = [f for f in ix.all_fields(sch) if f in ("allOf", "oneOf", "anyOf")]
@@ -641,6 +689,196 @@ def _merge_keeps_required(rep: Report, ix: Any) -> None:
                   rhs="required=a.required or b.required")
 
 
+_EMPTY = (ast.List, ast.Tuple, ast.Set, ast.Dict)
+
+
+def _required_list_read(e: ast.AST) -> bool:
+    """`<x>.required`, `<x>.required or []`, or a set / list / tuple / sorted / frozenset made of one: the names a document object
+    lists as required (a property's own `required` is a bool and is never iterated)"""
+    if isinstance(e, ast.BoolOp) and isinstance(e.op, ast.Or) and len(e.values) == 2 and isinstance(e.values[1], (*_EMPTY, ast.Call)) and \
+            not getattr(e.values[1], "elts", None) and not getattr(e.values[1], "args", None):
+        e = e.values[0]
+    if isinstance(e, ast.Attribute) and e.attr == "required" and not (isinstance(e.value, ast.Name) and e.value.id == "cls"):
+        return True
+    if isinstance(e, ast.Call) and norm(e.func) in ("set", "frozenset", "list", "tuple", "sorted") and len(e.args) == 1:
+        return _required_list_read(e.args[0])
+    if isinstance(e, ast.Starred):
+        return _required_list_read(e.value)
+    if isinstance(e, (ast.Set, ast.List, ast.Tuple)) and len(e.elts) == 1 and isinstance(e.elts[0], ast.Starred):
+        return _required_list_read(e.elts[0])
+    return False
+
+
+def _required_list_whole(rep: Report, ix: Any, stores: list[tuple[Any, ast.AST]]) -> None:
+    """Which properties are mandatory is said by the `required` lists of the document (of the schema itself and of every allOf member),
+    by name - also names of properties that another member declares.  Every name has to reach the place where a property's
+    `required` is decided: the list is not rewritten on the document object and nothing is taken out of it on the way."""
+    rep.rule("R10.11", "the names a document object lists under `required` reach the builders whole: the field is not rewritten in place "
+                       "(store, del, mutating call - also by a validator of the document class), and a collection made of it is never "
+                       "filtered (a comprehension / filter() / loop with a condition over it, set difference or intersection, "
+                       "remove / discard / pop / clear): a name dropped there - e.g. because the object does not declare the property "
+                       "itself - makes an inherited property optional")
+    n_reads = 0
+    bad: list[tuple[Any, ast.AST, str]] = [(f, n, "the field is rewritten in place") for f, n in stores]
+    lossy = {"remove", "discard", "pop", "clear", "difference", "difference_update", "intersection", "intersection_update",
+             "symmetric_difference", "symmetric_difference_update"}
+    for f in ix.all_functions:
+        if f.parent is not None:
+            continue   # closures are walked with the function that holds them
+        lc = Locals(f.node)
+        # locals that hold (a collection made of) a required list
+        held = {nm for nm, ds in lc.defs.items() if any(v is not None and k.startswith("assign") and _required_list_read(v) for k, _, v in ds)}
+
+        def is_rl(e: ast.AST) -> bool:
+            return _required_list_read(e) and not (isinstance(e, ast.Attribute)) or (isinstance(e, ast.Name) and e.id in held)
+
+        def iterated(e: ast.AST) -> bool:
+            """e in a position where it is iterated: the list itself counts here too"""
+            return is_rl(e) or (_required_list_read(e) and isinstance(e, (ast.Attribute, ast.BoolOp)))
+
+        for n in ast.walk(f.node):
+            if isinstance(n, (ast.ListComp, ast.SetComp, ast.GeneratorExp, ast.DictComp)):
+                for g in n.generators:
+                    if iterated(g.iter):
+                        n_reads += 1
+                        if g.ifs:
+                            bad.append((f, n, "a comprehension over it keeps only some names"))
+            elif isinstance(n, ast.Call):
+                fn = norm(n.func)
+                if fn in ("filter", "itertools.filterfalse", "filterfalse") and len(n.args) == 2 and iterated(n.args[1]):
+                    bad.append((f, n, "filter() over it keeps only some names"))
+                elif fn in ("set", "frozenset", "list", "tuple", "sorted") and len(n.args) == 1 and iterated(n.args[0]):
+                    n_reads += 1
+                elif isinstance(n.func, ast.Attribute):
+                    recv = n.func.value
+                    on_field = isinstance(recv, ast.Attribute) and recv.attr == "required"
+                    if n.func.attr in lossy and (is_rl(recv) or on_field):
+                        bad.append((f, n, f"`.{n.func.attr}(...)` takes names out of it"))
+                    elif on_field and n.func.attr in ("append", "extend", "insert", "sort", "reverse", "__delitem__", "__setitem__"):
+                        bad.append((f, n, "the field is changed in place"))
+                    elif n.func.attr in ("update", "union", "extend") and any(iterated(a) for a in n.args):
+                        n_reads += 1
+            elif isinstance(n, ast.Starred) and iterated(n.value):
+                n_reads += 1
+            elif isinstance(n, ast.BinOp) and isinstance(n.op, (ast.Sub, ast.BitAnd, ast.BitXor)) and (is_rl(n.left) or is_rl(n.right)):
+                bad.append((f, n, "a set difference / intersection takes names out of it"))
+            elif isinstance(n, ast.AugAssign) and isinstance(n.op, (ast.Sub, ast.BitAnd, ast.BitXor)) and (is_rl(n.target) or is_rl(n.value)):
+                bad.append((f, n, "a set difference / intersection takes names out of it"))
+            elif isinstance(n, ast.Delete) and any(isinstance(t, ast.Subscript) and isinstance(t.value, ast.Attribute) and t.value.attr == "required"
+                                                   or isinstance(t, ast.Attribute) and t.attr == "required" for t in n.targets):
+                bad.append((f, n, "the field is changed in place"))
+            elif isinstance(n, (ast.For, ast.AsyncFor)) and iterated(n.iter) and isinstance(n.target, ast.Name):
+                n_reads += 1
+                v = n.target.id
+                skips = any(isinstance(x, ast.Continue) for x in ast.walk(n))
+                cond = any(isinstance(i_, ast.If) and any(isinstance(c, ast.Call) and isinstance(c.func, ast.Attribute) and
+                                                          c.func.attr in ("add", "append") and any(norm(a) == v for a in c.args)
+                                                          for b_ in (i_.body, i_.orelse) for st in b_ for c in ast.walk(st))
+                           for i_ in ast.walk(n))
+                if skips or cond:
+                    bad.append((f, n, "a loop over it hands on only some names"))
+    seen: set[str] = set()
+    for f, n, why in bad:
+        k = f"{short(f)}::required-list-not-whole"
+        if k in seen:
+            continue
+        seen.add(k)
+        rep.fail("R10.11", k, f"the document's `required` list does not reach the builders whole: {why} ({norm(n)[:70]}); a required name "
+                 "that is dropped (one the object does not declare itself, but another allOf member does) makes that property optional",
+                 where(f, n), lhs=norm(n)[:80], rhs="set(<schema>.required or []) handed on as it is")
+    rep.floor("required_list_reads", n_reads, 1)
+    if not bad:
+        rep.ok("R10.11", "package::required-lists-whole", n_reads, "no rewrite, no filter")
+
+
+def _combination_is_allof_only(rep: Report, ix: Any) -> None:
+    """`required` is sticky and a missing default is inherited when one property is declared twice in an allOf composition - and nowhere
+    else: an operation's parameter replaces the path item's, a referenced schema's property is the referenced one.  The functions
+    that compute a `required` from two declarations' (`a.required or b.required`), and everything that reaches them, therefore
+    belong to the merge machinery or to the allOf composition."""
+    from ..astutil import region
+
+    rep.rule("R10.12", "the requiredness of two declarations is combined (`required=<a>.required or <b>.required` and the like) only for "
+                       "allOf: every function from which such a combination is reached lies in the module of merge_properties, or "
+                       "is a private helper (or a method of a private class) all of whose callers (users) qualify, or is (with its private helpers and closures) the "
+                       "function that walks `<schema>.allOf`; anywhere else - parameters of an operation over those of its path item, "
+                       "a reference over its target - one declaration replaces the other and keeps its own `required`")
+    mp = ix.func("merge_properties.merge_properties")
+    home = mp.module
+
+    def two_required(v: ast.AST) -> bool:
+        reads = {norm(x.value) for x in ast.walk(v) if isinstance(x, ast.Attribute) and x.attr == "required"}
+        combining = isinstance(v, (ast.BoolOp, ast.BinOp)) or (isinstance(v, ast.Call) and norm(v.func) in ("any", "all", "max", "min", "bool"))
+        return combining and len(reads) >= 2
+
+    def outer(g: Any) -> Any:
+        while g.parent is not None:
+            g = g.parent
+        return g
+
+    combiners = []
+    for g in ix.all_functions:
+        for c in ast.walk(g.node):
+            vals = [kw.value for kw in c.keywords if kw.arg == "required"] if isinstance(c, ast.Call) else \
+                [c.value] if isinstance(c, ast.Assign) and any(isinstance(t, ast.Attribute) and t.attr == "required" for t in c.targets) else []
+            if any(two_required(v) for v in vals) and outer(g) not in combiners:
+                combiners.append(outer(g))
+    rep.floor("requiredness_combiners", len(combiners), 1)
+    by_name: dict[str, list[Any]] = {}
+    for g in ix.all_functions:
+        by_name.setdefault(g.name, []).append(g)
+
+    def callers(h: Any) -> list[Any]:
+        out = []
+        for g in ix.all_functions:
+            if g.parent is not None:
+                continue
+            if outer(g) is not h and any(call_name(c).rsplit(".", 1)[-1] == h.name for c in calls_in(g.node)) and g not in out:
+                out.append(g)
+        return out
+
+    def users(k: Any) -> list[Any]:
+        out = []
+        for g in ix.all_functions:
+            if g.parent is None and g.cls is not k and any(isinstance(x, ast.Name) and x.id == k.name for x in ast.walk(g.node)) and g not in out:
+                out.append(g)
+        return out
+
+    def walks_allof(g: Any) -> bool:
+        return any(isinstance(x, ast.Attribute) and x.attr == "allOf" for h in region(ix, g) for x in ast.walk(h.node))
+
+    bad: list[tuple[Any, Any]] = []
+    seen = {g.qual for g in combiners}
+    todo = [(g, g) for g in combiners]
+    n_checked = 0
+    while todo:
+        g, via = todo.pop()
+        n_checked += 1
+        if g.module is home:
+            nxt = callers(g)
+        elif walks_allof(g):
+            continue
+        elif g.name.startswith("_") and not g.name.startswith("__") and callers(g):
+            nxt = callers(g)
+        elif g.cls is not None and g.cls.name.startswith("_") and users(g.cls):
+            nxt = users(g.cls)     # a method of a private class: the functions that use the class
+        else:
+            bad.append((g, via))
+            continue
+        for c in nxt:
+            if c.qual not in seen:
+                seen.add(c.qual)
+                todo.append((c, g))
+    for g, via in bad:
+        rep.fail("R10.12", f"{short(g)}::combines-requiredness-outside-allOf",
+                 f"{short(g)} reaches the combination of two declarations' `required` (through {short(via)}) but is neither part of the "
+                 "merge machinery nor the allOf composition: what it builds is required as soon as either declaration is - a "
+                 "parameter or property re-declared as optional stays mandatory (and inherits the other declaration's default)",
+                 where(g, g.node), lhs=short(via), rhs="one declaration replaces the other")
+    if not bad:
+        rep.ok("R10.12", "package::combination-allOf-only", n_checked, "only the merge module and the allOf walk reach a combination")
+
+
 def _py_blocks(text: str) -> Iterator[ast.Module]:
     """the statements of generated Python code that a piece of template text contains completely: for every line, the line together
     with the deeper indented lines that follow it, if that parses"""
@@ -727,35 +965,84 @@ def _nullable_paths(fn: ast.AST, nullable: bool, shape: str) -> list[SimPath]:
     the composition keywords non-empty"""
     from .siblings import _chain
 
-    def size(e: ast.expr) -> "int | None":
-        if isinstance(e, ast.Constant) and isinstance(e.value, int) and not isinstance(e.value, bool):
-            return e.value
-        if isinstance(e, ast.Call) and norm(e.func) == "len" and len(e.args) == 1 and norm(e.args[0]) in ("self.oneOf", "self.anyOf", "self.allOf"):
-            return 1 if norm(e.args[0]) == "self." + shape else 0
-        return None
+    def field_of(e: ast.expr, st: dict, sim: PathSim) -> str:
+        """`self.<field>` when the expression is that field of the schema: read directly, through a local that holds it, or by
+        `getattr(self, "<field>")` with the name written out or held by a local"""
+        e = sim.resolve(e, st)
+        if isinstance(e, ast.Call) and norm(e.func) == "getattr" and len(e.args) in (2, 3) and norm(e.args[0]) == "self":
+            k = sim.resolve(e.args[1], st)
+            if isinstance(k, ast.Constant) and isinstance(k.value, str):
+                return "self." + k.value
+        return norm(e)
 
     def leaf(e: ast.expr, st: dict, sim: PathSim) -> "bool | None":
-        t = norm(e)
+        def size(x: ast.expr) -> "int | None":
+            if isinstance(x, ast.Constant) and isinstance(x.value, int) and not isinstance(x.value, bool):
+                return x.value
+            if isinstance(x, ast.Call) and norm(x.func) == "len" and len(x.args) == 1 and \
+                    field_of(x.args[0], st, sim) in ("self.oneOf", "self.anyOf", "self.allOf"):
+                return 1 if field_of(x.args[0], st, sim) == "self." + shape else 0
+            return None
+
+        t = field_of(e, st, sim) if isinstance(e, (ast.Name, ast.Call)) else norm(e)
         if t == "self.nullable":
             return nullable
         if t in ("self.oneOf", "self.anyOf", "self.allOf"):
             return t == "self." + shape
         if t == "self.type":
             return shape.startswith("type")
-        if isinstance(e, ast.Call) and norm(e.func) == "isinstance" and len(e.args) == 2 and norm(e.args[0]) == "self.type":
+        if isinstance(e, ast.Call) and norm(e.func) == "isinstance" and len(e.args) == 2 and field_of(e.args[0], st, sim) == "self.type":
             kinds = [norm(x) for x in (e.args[1].elts if isinstance(e.args[1], ast.Tuple) else [e.args[1]])]
             have = {"type scalar": "str", "type list": "list"}.get(shape)
             return have in kinds if have else False
         if isinstance(e, ast.Compare):
-            if len(e.ops) == 1 and isinstance(e.ops[0], (ast.In, ast.NotIn)) and norm(e.comparators[0]) == "self.type" and norm(e.left).endswith("NULL"):
+            if len(e.ops) == 1 and isinstance(e.ops[0], (ast.In, ast.NotIn)) and field_of(e.comparators[0], st, sim) == "self.type" and norm(e.left).endswith("NULL"):
                 return isinstance(e.ops[0], ast.NotIn)  # the list does not contain null yet
             return _chain(e, size)
         return None
 
     def none_of(e: ast.expr, st: dict, sim: PathSim) -> "bool | None":
-        return (not shape.startswith("type")) if norm(e) == "self.type" else None
+        return (not shape.startswith("type")) if field_of(e, st, sim) == "self.type" else None
 
     return PathSim(fn, leaf, none_of).paths()
+
+
+class _FlatInliner(_Inliner):
+    """_Inliner, also for helpers that are called where the inliner leaves them alone although writing them out is exact:
+
+    * a helper call in a later operand of the `and` / `or` an `if` tests: `if a and h(): B else: E` is `if a: (if h(): B else: E)
+      else: E` (and `if a or h(): B else: E` is `if a: B else: (if h(): B else: E)`), where the call is evaluated
+      unconditionally in the test of the inner `if`;
+    * a helper that returns from inside a loop over a written-out table: the loop is unrolled first, the returns are then
+      returns of straight-line code."""
+
+    def _calls_helper(self, e: ast.AST) -> bool:
+        return any(isinstance(n, ast.Call) and self._helper_of(n) is not None for n in ast.walk(e))
+
+    def _hoist(self, s: ast.stmt, stack: tuple) -> list:
+        import copy
+
+        if isinstance(s, ast.If) and isinstance(s.test, ast.BoolOp):
+            vals = s.test.values
+            k = next((i for i in range(1, len(vals)) if self._calls_helper(vals[i])), None)
+            if k is not None:
+                first = vals[0] if k == 1 else ast.copy_location(ast.BoolOp(op=s.test.op, values=vals[:k]), s.test)
+                rest = vals[k] if k == len(vals) - 1 else ast.copy_location(ast.BoolOp(op=s.test.op, values=vals[k:]), s.test)
+                if isinstance(s.test.op, ast.And):
+                    inner = ast.copy_location(ast.If(test=rest, body=s.body, orelse=copy.deepcopy(s.orelse)), s)
+                    s.test, s.body = first, [inner]
+                else:
+                    inner = ast.copy_location(ast.If(test=rest, body=copy.deepcopy(s.body), orelse=s.orelse), s)
+                    s.test, s.orelse = first, [inner]
+                self.n += 1
+        return super()._hoist(s, stack)
+
+    def _structured(self, stmts: list, res: str, budget: list) -> "list | None":
+        flat: list = []
+        for s in stmts:
+            u = self._unrolled(s) if isinstance(s, ast.For) and _returns_in(s) else None
+            flat += u if u is not None else [s]
+        return super()._structured(flat, res, budget)
 
 
 def _adds_null(p: SimPath) -> bool:
